@@ -732,6 +732,10 @@ func (m *mappedFile) newCounter(name string) (v *atomic.Uint64, m1 *mappedFile, 
 		limit := m.load32(m.hdrLen + limitOff)
 		start, end = m.place(limit, name)
 		debugPrintf("place %s at %#x-%#x\n", name, start, end)
+		if start < limit || end < start {
+			// The 32-bit offsets wrapped around: the recorded limit is corrupt.
+			return nil, nil, errCorrupt
+		}
 		if int64(end) > int64(len(m.mapping.Data)) {
 			newM, err := m.extend(end)
 			if err != nil {
@@ -821,6 +825,11 @@ func (m *mappedFile) remapGrown() (*mappedFile, error) {
 }
 
 func (m *mappedFile) extend(end uint32) (*mappedFile, error) {
+	if round(end, pageSize) < end {
+		// Rounding up to a page wrapped around: only a corrupt limit asks for this,
+		// and the caller would retry forever on a file that never grows.
+		return nil, errCorrupt
+	}
 	end = round(end, pageSize)
 	info, err := m.f.Stat()
 	if err != nil {
